@@ -374,7 +374,7 @@ func TestC18(t *testing.T) {
 					r := w.f.Exec(rnstypes.NewMsgTransfer(a.Bech, nm, drawAcc(rt, "receiver").Bech))
 					w.logf("rns transfer %s by %s -> %s", nm, short(a.Bech), r)
 				} else {
-					r := w.f.Exec(rnstypes.NewMsgRegisterName(a.Bech, nm, 1, "{}", false))
+					r := w.f.Exec(newMsgRegisterName(a.Bech, nm, 1, "{}", false))
 					w.logf("rns register %s by %s -> %s", nm, short(a.Bech), r)
 				}
 				w.syncNames()
